@@ -847,7 +847,82 @@ func replayFile(path string) int {
 	return 1
 }
 
+// selftest checks the simulator itself:
+//  1. pass-through equivalence: the instrumented concurrency packages, with no
+//     simulation active (shims delegate to the real sync/atomic, yields are
+//     no-ops), still pass the repository's own tests that use them;
+//  2. determinism at scale: for every simulated check a seed range is executed
+//     three times in fresh processes at GOMAXPROCS 1, 4 and 16 and the
+//     per-run event-log hashes must be identical.
 func selftest(ids []string) int {
-	fmt.Println("selftest: use `check <id> quick` (includes a determinism sample) — full selftest is part of the thorough tier")
-	return 0
+	rc := 0
+	// 1. pass-through
+	pt := &spec{ID: "SELFTEST", TestPkg: "x/jsonrpc2/jsonrpc2test", TestName: "none",
+		Instrument: map[string]simgen.Options{
+			xgo + "/x/jsonrpc2": {Sync: true, Conc: true, Maps: true},
+			xgo + "/x/fakenet":  {Sync: true, Conc: true, Maps: true},
+			xgo + "/x/watcher":  {Sync: true, Conc: true, Maps: true},
+		}}
+	sc := prepare(pt)
+	out, err := run(sc.repo, goEnv(), "go1.26.8", "test", "-vet=off", "-count=3", "./x/jsonrpc2/...", "./x/fakenet/...", "./x/watcher/...")
+	sc.cleanup()
+	if err != nil {
+		fmt.Printf("selftest: pass-through FAILED: the instrumented packages do not pass their own tests\n%s\n", tail(out, 4000))
+		rc = 2
+	} else {
+		fmt.Println("selftest: pass-through ok (instrumented x/jsonrpc2, x/fakenet, x/watcher pass go test -count=3 ./x/jsonrpc2/... with the simulation inactive)")
+	}
+	// 2. determinism
+	if len(ids) == 0 {
+		ids = []string{"C40", "C41", "C39", "C26", "C38", "C36", "C08"}
+	}
+	for _, id := range ids {
+		sp := specs[strings.ToUpper(id)]
+		if sp == nil {
+			continue
+		}
+		sc := prepare(sp)
+		n := 400
+		if sp.ID == "C08" {
+			n = 60
+		}
+		var ref []uint64
+		ok := true
+		for i, gmp := range []string{"1", "4", "16", "2"} {
+			os.Setenv("VERIF_GOMAXPROCS", gmp)
+			j := &job{Property: sp.ID, Mode: "gen", Tier: "quick", Seed: baseSeed(), From: 0, To: n, MaxSteps: sp.maxSteps("quick")}
+			if _, err := worker(sc, sp, j, fmt.Sprintf("self%d", i), 15*time.Minute); err != nil {
+				fmt.Printf("selftest: %s worker failed: %v\n", sp.ID, err)
+				ok = false
+				break
+			}
+			data, _ := os.ReadFile(j.Hashes)
+			os.Remove(j.Hashes)
+			var hs []uint64
+			for k := 0; k+8 <= len(data); k += 8 {
+				hs = append(hs, binary.LittleEndian.Uint64(data[k:]))
+			}
+			if i == 0 {
+				ref = hs
+				continue
+			}
+			if len(hs) != len(ref) {
+				ok = false
+			}
+			for k := range hs {
+				if k < len(ref) && hs[k] != ref[k] {
+					ok = false
+				}
+			}
+		}
+		os.Unsetenv("VERIF_GOMAXPROCS")
+		sc.cleanup()
+		if ok {
+			fmt.Printf("selftest: %s deterministic: %d runs x 4 processes (GOMAXPROCS 1/4/16/2) gave identical event-log hashes (%d non-trivial)\n", sp.ID, n, len(ref))
+		} else {
+			fmt.Printf("selftest: %s NOT deterministic\n", sp.ID)
+			rc = 2
+		}
+	}
+	return rc
 }
